@@ -119,7 +119,7 @@ def run(ck):
         # strong-exchange regime (the default then picks the large-omega2 algorithm); only for crystals outside the known
         # large-omega2 failure regimes of C08 (one Wyckoff set, no origin-state vector basis); inequivalent exchange
         # classes get rates spread over up to 1.5 decades
-        plain = len(sl) == 1    # origin-state crystals behave like plain ones since fix b4a4433
+        plain = not vm.exchange_mixes_stars(d)    # outside the known large-omega2 regime of C08 (origin-state crystals are fine since b4a4433)
         strong = plain and (rep % 2 == 0 or rng.random() < 0.3)
         if strong:
             th["eneT2"] = th["eneT2"] - rng.uniform(18, 24)
@@ -128,19 +128,20 @@ def run(ck):
                   [("eneT2", k) for k in range(len(th["eneT2"]))]
         rng.shuffle(targets)
         targets = targets[:ck.n(5, 12)]
-        for large in ([1e8] if ck.quick and rep % 2 else [1e8, 1e-6]):
+        for large in ([None] if ck.quick and rep % 2 else [None, 1e-6]):   # None: the calculator's own default selection
             def L(thx, real=False):
                 args = d.preene2betafree(1.0, **thx)
+                kw = {} if large is None else {"large_om2": large}
                 if real:
-                    d.clearcache(); return [np.array(x) for x in d.Lij(*args, large_om2=large)]
+                    d.clearcache(); return [np.array(x) for x in d.Lij(*args, **kw)]
                 # injected: replicate vm.inject but with the large_om2 argument
-                d.clearcache(); d.Lij(*args, large_om2=large)
+                d.clearcache(); d.Lij(*args, **kw)
                 key = list(d.GFvalues.keys())[0]
                 G, idx = vm.torus_GF(d, args[0], args[3], M)
                 zero = (0,) * crys.dim
                 d.GFvalues[key] = np.array([G[idx[(PS.i, zero)], idx[(PS.j, tuple(np.array(PS.R) % M))]]
                                             for PS in [d.GFstarset.states[s[0]] for s in d.GFstarset.stars]])
-                out = [np.array(x) for x in d.Lij(*args, large_om2=large)]
+                out = [np.array(x) for x in d.Lij(*args, **kw)]
                 d.clearcache(); return out
             base = L(th)
             for (arr, k) in targets:
@@ -155,19 +156,19 @@ def run(ck):
                 scale = np.abs(base[0]).max()
                 m0 = tcommon.min_eig(new[0] - base[0]); ms = tcommon.min_eig(new[1] - base[1])
                 ck.case(key=("vm", nm, arr, k, delta, large, [np.asarray(v).round(10).tolist() for v in th.values()]), nontrivial=True,
-                        kind="vm:%s:%s%s" % (arr, "large_om2-forced" if large < 1 else "default", "-strong" if strong else ""),
+                        kind="vm:%s:%s%s" % (arr, "large_om2-forced" if large is not None else "default", "-strong" if strong else ""),
                         sample={"crystal": nm, "lowered": [arr, k], "delta": delta, "large_om2": large, "min_eig_dL0vv": float(m0), "min_eig_dLss": float(ms)} if nvm <= 3 else None)
                 doc = {"crystal": nm, "cutoff": cut, "M": M, "large_om2": large, "lowered": [arr, k], "delta": delta,
                        "thermo": {a: np.asarray(v).tolist() for a, v in th.items()}, "base": [b.tolist() for b in base], "new": [b.tolist() for b in new]}
                 if m0 < -1e-9 * scale:
                     ck.violation("lowering %s[%d] decreased L0vv (min eig %.3g, scale %.3g)" % (arr, k, m0, scale), doc, key="c05-L0vv")
-                tol = 1e-9 if large >= 1 and not strong else 1e-7
+                tol = 1e-9 if large is None and not strong else 1e-7
                 if ms < -tol * max(scale, np.abs(new[1]).max()):
                     ck.violation("lowering %s[%d] decreased Lss (min eig %.3g, scale %.3g)" % (arr, k, ms, scale), doc, key="c05-Lss")
         # real Green function on a subset
         if nreal < ck.n(2, 6):
             nreal += 1
-            large = 1e8
+            large = None
             base = L(th, real=True)
             for (arr, k) in targets[:3]:
                 delta = rng.uniform(0.3, 2.5)
